@@ -1,5 +1,7 @@
 """C24 distribute_partition: K1 differential on (h, n, rf) + direct monitor of the property statement."""
-PROP, CRATE = "C24", "hfull"
+PROP = "C24"
+COQ_IMPORTS = "From SV Require Import Model.Topology."
+READY = True
 RULE = ("cases = (h,n,rf): quick = every n in 0..1200, boundary n (4095..4097, 21844/5, 32767..32769, 43688..43691, 65521, 65533..65535) and 1500 random n; "
         "thorough = every n in 0..65535; h in {0,n-2,n-1,n,65535,2 random}; rf in {0,1,2,3,11,12,13,255}. "
         "A case is non-trivial when n>0, rf>1 (the jump loop runs). distinct = distinct case strings.")
